@@ -804,7 +804,7 @@ def deep_l1_check(chk, ctx, case, model, out, inp, tag=''):
     if all(F == 0 for F in Fs):
         sp = model.project([p['nsub'] for p in pops])
         sm = ~np.array(np.ma.getmaskarray(sp))
-        if float(np.max(np.abs(np.asarray(np.ma.getdata(sp), dtype=float)[sm] - ref[sm]))) > RTOL * scale:
+        if case.get('mask') is None and sm.any() and float(np.max(np.abs(np.asarray(np.ma.getdata(sp), dtype=float)[sm] - ref[sm]))) > RTOL * scale:
             chk.fail('projection_matrix:vs-project', '%sthe model pushed through projection_matrix(F=0) differs from Spectrum.project' % tag, inp)
     if have_driver(ctx) and not any(0 < F < TINY_F for F in Fs):
         popstr = ';'.join('%s@%d@%d@%s' % (fmt_list(p['cov']), p['nseq'], p['nsub'], rat(F)) for p, F in zip(pops, Fs))
